@@ -147,7 +147,7 @@ func newWorld(seed int64) *world {
 }
 
 // tx builds (once) the transaction with abstract id t; the kind is the id's last digit
-// (MCRpcRead!MCTxs): 1 invoke v3, 2 L1 handler, 3 invoke v1 with a reverted receipt,
+// (MCRpcRead!MCTxs): 1 invoke v3, 2 and 7 L1 handlers, 3 invoke v1 with a reverted receipt,
 // 4 deploy account, 5 declare, 6 legacy deploy.  99 is a hash nobody stored.
 func (w *world) tx(t int) (core.Transaction, *core.TransactionReceipt) {
 	if tx, ok := w.txs[t]; ok {
@@ -158,7 +158,7 @@ func (w *world) tx(t int) (core.Transaction, *core.TransactionReceipt) {
 	switch t % 10 {
 	case 1:
 		kind = "invoke3"
-	case 2:
+	case 2, 7:
 		kind = "l1handler"
 	case 3:
 		kind = "invoke1"
@@ -646,7 +646,7 @@ func txType(t int) string {
 	switch t % 10 {
 	case 1, 3:
 		return "INVOKE"
-	case 2:
+	case 2, 7:
 		return "L1_HANDLER"
 	case 4:
 		return "DEPLOY_ACCOUNT"
